@@ -106,6 +106,7 @@ def run(repo, chk, tier):
     bound(repo, chk, tier)
     chain(repo, chk)
     node_order(repo, chk)
+    dtype_flow(repo, chk)
     chk.info("not decided: flatness of the accepted sample, cal_max_weight (numerical maximisation), rounding, refill estimate")
 
 
@@ -261,6 +262,66 @@ def roles(repo, chk):
             chk.violation("S-roles", gm.key, "order:n=%d" % n, "n=%d: the returned four-vectors carry the masses %s, the particles were declared as %s" % (n, got, mus), file=PS, line=gm.lineno)
 
 
+# --------------------------------------------------------------------------------------- D-dtype
+def dtype_flow(repo, chk):
+    """get_p is called with python floats (fixed masses) as well as with float64 tensors: a python float that enters a
+    TensorFlow op without a dtype becomes a float32 tensor (tf.cast / tf.where / tf.zeros_like convert first)"""
+    chk.rule("D-dtype", "get_p: no TensorFlow operation receives a value that may still be a python float - the mass arguments are converted with an explicit float64 dtype / dtype_hint before they (or anything computed from them) reach tf.where / tf.cast / tf.sqrt ...: otherwise fixed (python-float) masses are rounded to float32 and a two-body decay closes only to 1e-7")
+    gp = repo.fn(K + "get_p")
+    tainted = set(gp.params)
+    bad = []
+
+    def is_f64_conversion(c):
+        if not (isinstance(c, ast.Call) and norm_text(c.func).split(".")[-1] in ("convert_to_tensor", "constant", "float64", "asarray", "array")):
+            return False
+        txt = norm_text(c)
+        return "float64" in txt
+
+    def scan(expr, local_taint):
+        """tf.* calls in expr that receive a tainted name"""
+        for c in ast.walk(expr):
+            if isinstance(c, ast.Call) and norm_text(c.func).split(".")[0] in ("tf", "tensorflow") and not is_f64_conversion(c):
+                for a in list(c.args) + [k.value for k in c.keywords]:
+                    inner_ok = set()
+                    for cc in ast.walk(a):
+                        if is_f64_conversion(cc):
+                            inner_ok |= {x.id for x in ast.walk(cc) if isinstance(x, ast.Name)}
+                    names = {x.id for x in ast.walk(a) if isinstance(x, ast.Name)} - inner_ok
+                    if names & local_taint:
+                        bad.append((c, sorted(names & local_taint)))
+
+    def assign(targets, value, local_taint):
+        names_t = [x.id for t in targets for x in ast.walk(t) if isinstance(x, ast.Name)]
+        vnames = {x.id for x in ast.walk(value) if isinstance(x, ast.Name)}
+        # a comprehension over the parameters whose element is a float64 conversion cleans every target
+        conv_all = is_f64_conversion(value) or (isinstance(value, (ast.ListComp, ast.GeneratorExp, ast.Tuple, ast.List)) and all(
+            is_f64_conversion(e) or any(is_f64_conversion(x) for x in ast.walk(e)) for e in ([value.elt] if isinstance(value, (ast.ListComp, ast.GeneratorExp)) else value.elts)))
+        any_tf = any(isinstance(c, ast.Call) and norm_text(c.func).split(".")[0] in ("tf", "tensorflow") for c in ast.walk(value))
+        for nm in names_t:
+            if conv_all:
+                local_taint.discard(nm)
+            elif any_tf:
+                local_taint.discard(nm)  # the result of a TensorFlow op is a tensor (its dtype was decided at that op)
+            elif vnames & local_taint:
+                local_taint.add(nm)
+            else:
+                local_taint.discard(nm)
+
+    for st in gp.node.body:
+        if isinstance(st, ast.Assign):
+            scan(st.value, tainted)
+            assign(st.targets, st.value, tainted)
+        elif isinstance(st, ast.Return) and st.value is not None:
+            scan(st.value, tainted)
+        elif isinstance(st, ast.Expr):
+            scan(st.value, tainted)
+        elif isinstance(st, (ast.If, ast.For, ast.While, ast.With, ast.Try)):
+            raise AnalysisError("get_p is no longer straight-line code: D-dtype cannot be decided")
+    chk.oblige("D-dtype", "get_p: every TensorFlow op receives float64-converted values (python-float masses included)", not bad)
+    for c, names in bad[:2]:
+        chk.violation("D-dtype", gp.key, "float32:%s" % ",".join(names), "`%s` receives %s, which is still a python float when get_p is called with fixed masses: TensorFlow converts it to float32 first (tf.cast(x, tf.float64) too), so the break-up momentum carries a relative error of about 3e-8 and generated two-body events close only to 1e-7" % (norm_text(c)[:70], names), file=PS, line=c.lineno)
+
+
 # --------------------------------------------------------------------------------------- S-perm
 def node_order(repo, chk):
     """config_loader/sample.py::trans_node_order reorders the generator structure and the particle -> position table
@@ -345,6 +406,11 @@ def count(repo, chk):
             def flat_mass(tr_, a_, k_, n_):
                 a = [x for x in a_ if not isinstance(x, SelfObj)]
                 ms = a[0] if a else k_["ms"]
+                fm_names = [x for x in need["flatten_mass"].all_param_names() if x != "self"]
+                bound_ = dict(zip(fm_names, a))
+                bound_.update(k_)
+                eff_flag = bound_.get("importances", "<default %s>" % norm_text(need["flatten_mass"].defaults().get("importances")) if "importances" in need["flatten_mass"].defaults() else None)
+                state.setdefault("imp_flags", []).append(eff_flag)
                 out = [TensorList(x for k, x in enumerate(c) if keep(k)) for c in ms]
                 for x in out[0]:
                     state["accepted"].add(x[:2])
@@ -361,8 +427,9 @@ def count(repo, chk):
 
             tr = Translator(repo, hooks={need["generate_mass"].key: gen_mass, need["flatten_mass"].key: flat_mass, need["generate_momentum"].key: gen_mom, "numeric_call_first": numeric}, max_depth=2)
             so = SelfObj(cls, {"m_nt": sp.Integer(ncomp + 2)})
+            IMP = sp.Symbol("IMPORTANCES_FLAG")
             try:
-                out = tr.call_fn(fn, [sp.Integer(want)], self_obj=so)
+                out = tr.call_fn(fn, [sp.Integer(want)], {"importances": IMP} if "importances" in fn.all_param_names() else {}, self_obj=so)
             except Unmodelled as e:
                 raise AnalysisError("generate() cannot be interpreted (n_iter=%d, %s accepted): %s" % (want, pat_name, e))
             cases += 1
@@ -380,6 +447,9 @@ def count(repo, chk):
                     why = "an accepted event enters the sample twice"
                 elif not set(ids[0]) <= state["accepted"]:
                     why = "a rejected event enters the sample"
+            flags = state.get("imp_flags", [])
+            if not why and "importances" in fn.all_param_names() and any(f is not IMP for f in flags):
+                why = "the acceptance steps are given importances = %s: every batch (the refill batches too) must be flattened with the caller's flag, otherwise the sample mixes two distributions" % ([str(f) for f in flags],)
             if why:
                 chk.violation("S-count", fn.key, "count:n=%d:%s" % (want, pat_name), "generate(%d) with %s event accepted: %s" % (want, pat_name, why), file=PS, line=fn.lineno)
                 chk.oblige("S-count", "generate(%d), %s accepted" % (want, pat_name), False)
